@@ -266,3 +266,170 @@ Lemma plain_do_runs_callee_as_owner : forall f P w t a ib o subs b bh ss k0 x re
   run (S (S f)) P w t (MBeh a) ib o subs (FSeq (SDoRaw b :: ss) :: k0) =
   (OYield (YActs [x]) (FCheck (OBeh b) :: FSeq rest :: FSub b o :: FSeq ss :: k0), [], subs).
 Proof. intros. rewrite sub_guards_at_start with (bh := bh); auto. rewrite H0, H1. reflexivity. Qed.
+
+(* ---------------------------------------------------------------- the compiler's loop-control flags *)
+(* structural induction on statements that reaches the statements nested in blocks *)
+Section StmtInd.
+  Variable Q : stmt -> Prop.
+  Hypothesis Hbase : forall s, (match s with STry _ _ | SWhile _ _ | SIf _ _ _ => False | _ => True end) -> Q s.
+  Hypothesis Hwhile : forall c body, Forall Q body -> Q (SWhile c body).
+  Hypothesis Hif : forall c a b, Forall Q a -> Forall Q b -> Q (SIf c a b).
+  Hypothesis Htry : forall body hs, Forall Q body -> Forall (fun h => Forall Q (snd h)) hs -> Q (STry body hs).
+  Fixpoint stmt_ind' (s : stmt) : Q s :=
+    let go := (fix go (l : list stmt) : Forall Q l :=
+                 match l with [] => Forall_nil _ | x :: r => Forall_cons x (stmt_ind' x) (go r) end) in
+    match s with
+    | SWhile c body => Hwhile c body (go body)
+    | SIf c a b => Hif c a b (go a) (go b)
+    | STry body hs =>
+        Htry body hs (go body)
+             ((fix goh (l : list (cond * list stmt)) : Forall (fun h => Forall Q (snd h)) l :=
+                 match l with
+                 | [] => Forall_nil _
+                 | (c, b) :: r => Forall_cons (c, b) (go b) (goh r)
+                 end) hs)
+    | SMark n => Hbase (SMark n) I | STake a => Hbase (STake a) I | SWait => Hbase SWait I
+    | SDo b => Hbase (SDo b) I | SDoFor b l => Hbase (SDoFor b l) I | SDoUntil b c => Hbase (SDoUntil b c) I
+    | SWaitFor l => Hbase (SWaitFor l) I | SWaitUntil c => Hbase (SWaitUntil c) I
+    | SDoScen l => Hbase (SDoScen l) I | SDoScenFor l q => Hbase (SDoScenFor l q) I
+    | SDoScenUntil l c => Hbase (SDoScenUntil l c) I
+    | SAbort => Hbase SAbort I | SBreak => Hbase SBreak I | SContinue => Hbase SContinue I | SReturn => Hbase SReturn I
+    | STerminate => Hbase STerminate I | STerminateSim => Hbase STerminateSim I | SRequire c => Hbase (SRequire c) I
+    | SCheck => Hbase SCheck I | SYieldRaw => Hbase SYieldRaw I | SDoRaw b => Hbase (SDoRaw b) I
+    | SDoScenRaw l => Hbase (SDoScenRaw l) I | SStopSubs => Hbase SStopSubs I
+    end.
+End StmtInd.
+
+(* a `break` / `continue` of the block itself: it refers to the loop enclosing the try-interrupt statement *)
+Fixpoint direct_brk (s : stmt) : bool :=
+  match s with SBreak => true | SIf _ a b => existsb direct_brk a || existsb direct_brk b | _ => false end.
+Fixpoint direct_cnt (s : stmt) : bool :=
+  match s with SContinue => true | SIf _ a b => existsb direct_cnt a || existsb direct_cnt b | _ => false end.
+(* a try-interrupt statement occurs somewhere in s *)
+Fixpoint has_try (s : stmt) : bool :=
+  match s with
+  | STry _ _ => true
+  | SIf _ a b => existsb has_try a || existsb has_try b
+  | SWhile _ body => existsb has_try body
+  | _ => false
+  end.
+
+Definition fl_block (inloop : bool) (ss : list stmt) (st : bool * bool) : bool * bool :=
+  fold_left (fun a x => fl_stmt x inloop a) ss st.
+
+Lemma fl_block_inloop : forall ss, Forall (fun s => has_try s = false -> forall st, fl_stmt s true st = st) ss ->
+  existsb has_try ss = false -> forall st, fl_block true ss st = st.
+Proof.
+  induction ss as [|s r IH]; intros F H st; simpl; auto.
+  simpl in H. apply orb_false_iff in H. destruct H as [H1 H2]. inversion F; subst.
+  unfold fl_block in *. simpl. rewrite H3; auto.
+Qed.
+
+Lemma fl_inloop_id : forall s, has_try s = false -> forall st, fl_stmt s true st = st.
+Proof.
+  induction s using stmt_ind'; intros HT st.
+  - destruct s; try contradiction; reflexivity.
+  - simpl in *. apply (fl_block_inloop body); auto.
+  - simpl in *. apply orb_false_iff in HT. destruct HT as [HA HB].
+    change (fl_block true b (fl_block true a st) = st). rewrite (fl_block_inloop a), (fl_block_inloop b); auto.
+  - discriminate.
+Qed.
+
+Lemma fl_block_direct : forall ss,
+  Forall (fun s => has_try s = false -> forall st, fl_stmt s false st = (fst st || direct_brk s, snd st || direct_cnt s)) ss ->
+  existsb has_try ss = false ->
+  forall st, fl_block false ss st = (fst st || existsb direct_brk ss, snd st || existsb direct_cnt ss).
+Proof.
+  induction ss as [|s r IH]; intros F H st; simpl.
+  - rewrite !orb_false_r. destruct st; reflexivity.
+  - simpl in H. apply orb_false_iff in H. destruct H as [H1 H2]. inversion F; subst.
+    unfold fl_block in *. simpl. rewrite H3; auto. rewrite IH; auto. simpl. rewrite !orb_assoc. reflexivity.
+Qed.
+
+Lemma fl_direct : forall s, has_try s = false ->
+  forall st, fl_stmt s false st = (fst st || direct_brk s, snd st || direct_cnt s).
+Proof.
+  induction s using stmt_ind'; intros HT st.
+  - destruct s; try contradiction; simpl; rewrite ?orb_false_r, ?orb_true_r; destruct st; reflexivity.
+  - simpl in *. change (fl_block true body st = (fst st || false, snd st || false)).
+    rewrite !orb_false_r. rewrite (fl_block_inloop body); [destruct st; reflexivity| |auto].
+    apply Forall_forall. intros x _ Hx. apply fl_inloop_id; auto.
+  - simpl in *. apply orb_false_iff in HT. destruct HT as [HA HB].
+    change (fl_block false b (fl_block false a st) = (fst st || (existsb direct_brk a || existsb direct_brk b), snd st || (existsb direct_cnt a || existsb direct_cnt b))).
+    rewrite (fl_block_direct a), (fl_block_direct b); auto. simpl. rewrite !orb_assoc. reflexivity.
+  - discriminate.
+Qed.
+
+Lemma fl_blocks_direct : forall ss, existsb has_try ss = false ->
+  forall st, fl_block false ss st = (fst st || existsb direct_brk ss, snd st || existsb direct_cnt ss).
+Proof.
+  intros. apply fl_block_direct; auto. apply Forall_forall. intros x _ Hx. apply fl_direct; auto.
+Qed.
+
+(* the blocks of a statement, in source order *)
+Definition blocks_of (body : list stmt) (hs : list (cond * list stmt)) : list (list stmt) := body :: map snd hs.
+
+Lemma fl_handlers_direct : forall hs : list (cond * list stmt), forallb (fun b => negb (existsb has_try b)) (map snd hs) = true ->
+  forall st, fold_left (fun a h => fold_left (fun a x => fl_stmt x false a) (snd h) a) hs st =
+             (fst st || existsb (existsb direct_brk) (map snd hs), snd st || existsb (existsb direct_cnt) (map snd hs)).
+Proof.
+  induction hs as [|[c b] r IH]; intros H st; simpl.
+  - rewrite !orb_false_r. destruct st; reflexivity.
+  - simpl in H. apply andb_true_iff in H. destruct H as [H1 H2]. apply negb_true_iff in H1.
+    change (fold_left (fun a x => fl_stmt x false a) b st) with (fl_block false b st).
+    rewrite (fl_blocks_direct b H1), IH; auto. simpl. rewrite !orb_assoc. reflexivity.
+Qed.
+
+(* each of break / continue used in the blocks has its check emitted -- provided no block contains a nested
+   try-interrupt statement (otherwise see flags_lost_refuted: finding F21) *)
+Lemma flags_complete : forall body hs,
+  forallb (fun b => negb (existsb has_try b)) (blocks_of body hs) = true ->
+  try_flags body hs = (existsb (existsb direct_brk) (blocks_of body hs), existsb (existsb direct_cnt) (blocks_of body hs)).
+Proof.
+  intros body hs H. unfold blocks_of in *. simpl in H. apply andb_true_iff in H. destruct H as [H1 H2]. apply negb_true_iff in H1.
+  unfold try_flags. simpl.
+  change (fold_left (fun a x => fl_stmt x false a) body (false, false)) with (fl_block false body (false, false)).
+  rewrite (fl_blocks_direct body H1), fl_handlers_direct; auto.
+Qed.
+
+(* ... so that nothing is rewritten: every BREAK / CONTINUE conclusion is acted upon as documented *)
+Lemma rw_block_id : forall ub uc ss,
+  Forall (fun s => (direct_brk s = true -> ub = true) -> (direct_cnt s = true -> uc = true) -> rw_stmt ub uc s = s) ss ->
+  (existsb direct_brk ss = true -> ub = true) -> (existsb direct_cnt ss = true -> uc = true) ->
+  map (rw_stmt ub uc) ss = ss.
+Proof.
+  induction ss as [|s r IH]; intros F HB HC; simpl; auto. inversion F; subst. simpl in HB, HC.
+  rewrite H1, IH; auto; intros E; [apply HB|apply HC|apply HB|apply HC]; rewrite E; auto using orb_true_r.
+Qed.
+
+Lemma rw_stmt_id : forall ub uc s, (direct_brk s = true -> ub = true) -> (direct_cnt s = true -> uc = true) -> rw_stmt ub uc s = s.
+Proof.
+  intros ub uc. induction s using stmt_ind'; intros HB HC.
+  - destruct s; try contradiction; simpl in *; auto; [rewrite HB|rewrite HC]; auto.
+  - reflexivity.
+  - simpl in *. rewrite (rw_block_id ub uc a), (rw_block_id ub uc b); auto; intros E; [apply HB|apply HC|apply HB|apply HC]; rewrite E; auto using orb_true_r.
+  - reflexivity.
+Qed.
+
+Lemma existsb_In_true : forall (A : Type) (f : A -> bool) l x, In x l -> f x = true -> existsb f l = true.
+Proof. intros. apply existsb_exists. eauto. Qed.
+
+Lemma checks_emitted_blocks_unchanged : forall body hs,
+  forallb (fun b => negb (existsb has_try b)) (blocks_of body hs) = true -> compile_try body hs = (body, hs).
+Proof.
+  intros body hs H. unfold compile_try. rewrite (flags_complete body hs H).
+  set (ub := existsb (existsb direct_brk) (blocks_of body hs)). set (uc := existsb (existsb direct_cnt) (blocks_of body hs)).
+  assert (BL : forall b, In b (blocks_of body hs) -> map (rw_stmt ub uc) b = b).
+  { intros b Hb. apply rw_block_id.
+    - apply Forall_forall. intros s _. apply rw_stmt_id.
+    - intros E. unfold ub. eapply existsb_In_true; eauto.
+    - intros E. unfold uc. eapply existsb_In_true; eauto. }
+  f_equal.
+  - apply BL. left; reflexivity.
+  - assert (HS : forall l : list (cond * list stmt), (forall h, In h l -> In (snd h) (blocks_of body hs)) ->
+                           map (fun h => (fst h, map (rw_stmt ub uc) (snd h))) l = l).
+    { induction l as [|[c b] r IH]; intros HI; simpl; auto. rewrite BL, IH; auto.
+      - intros h Hh. apply HI. right; auto.
+      - apply (HI (c, b)). left; auto. }
+    apply HS. intros h Hh. right. apply in_map. exact Hh.
+Qed.
